@@ -25,11 +25,18 @@ pub fn fmt_stub(_a: core::fmt::Arguments<'_>) -> String {
   }
 }
 
+/// `RandomState::new` reads the OS random source through a syscall Kani does not model. No
+/// hash is ever computed on these paths (the set stays empty); a fixed state is supplied.
+pub fn rs_stub() -> std::hash::RandomState {
+  unsafe { core::mem::transmute::<(u64, u64), std::hash::RandomState>((0, 0)) }
+}
+
 macro_rules! occ_harness {
   ($name:ident, $validator:ty, $hooks:path, $mk:expr) => {
     #[kani::proof]
     #[kani::unwind(4)]
     #[kani::stub(alloc::fmt::format, fmt_stub)]
+    #[kani::stub(std::hash::RandomState::new, rs_stub)]
     fn $name() {
       use $hooks as hk;
       let cddl = CDDL { rules: vec![], comments: None };
@@ -50,7 +57,7 @@ macro_rules! occ_harness {
         _ => (Occur::Exact { lower: None, upper: Some(hi), span: (0, 0, 0) }, 0, Some(hi)),
       };
       let e = entry(occ);
-      let mut v: $validator = $mk(&cddl);
+      let mut v: $validator = ($mk)(&cddl);
       hk::validate_repeating_member_count(&mut v, &e, count);
       let errs = hk::error_count(&v);
       assert!((errs > 0) == (count < min));
